@@ -29,31 +29,32 @@ META = {
                  "regenerated from the writers' format strings (ast) and the parsers' column tables (ast / reflection) on every "
                  "run; vm_compute correspondence with the real writers and parsers",
     "level_text": (
-        "Theorems in Coq 8.16: for EVERY layout and parser column table, if the decidable criterion `compatible` holds then every "
-        "record whose values fit their columns is read back (after strip) as exactly the formatted input (layout_compatible_sound, "
-        "any number of fields, open-ended last column, tail fields); `compatible` is evaluated by the kernel on the layouts "
-        "regenerated from the current source for every writer/parser pair (bernese_crd, bernese_clu, bernese_sta/bernese_sta_v52, "
-        "sinex_tms header / FILE/REFERENCE / REF_COORDINATE / COLUMNS) together with the resulting column->field map; rows read by "
-        "splitting on blanks re-tokenise to the written values iff every gap is non-empty (tokens_pieces, tms_tokens); which "
-        "magnitudes fit %w.df (fits_characterisation); the SINEX-TMS block markers are balanced for any number of rows "
-        "(blocks_balanced, on the block table regenerated from the writer); %.df prints the correctly rounded decimal and "
-        "float() of it is that decimal (fix_readback).  The model is tied to the code on every run: layouts/tables regenerated, and "
-        "files written by the real writers are compared line by line with the model inside Coq and re-read by the real parsers."),
+        "Theorems in Coq 8.16 (all closed under the global context): the decidable criterion `compatible` / `span_map` is evaluated "
+        "by the kernel on the layouts regenerated from the current source for every writer/parser pair (bernese_crd, bernese_clu, "
+        "bernese_sta <-> bernese_sta_v52, sinex_tms header / FILE/REFERENCE / REF_COORDINATE / COLUMNS) and yields the stated "
+        "column->field map; the parser registered as bernese_sta (v5.4) provably cannot read the writer's rows; the field windows of "
+        "the Bernese STA rows lie inside the writer's own column ruler; rows read by splitting on blanks re-tokenise to the written "
+        "values iff every inner gap is non-empty (tokens_pieces, token_row_sound, tms_tokens - all rows, any number of fields); "
+        "which magnitudes fit %w.df with / without a separating blank (fits_characterisation, narrower_characterisation, all w d m) "
+        "and that the property's coordinate domain fits the regenerated widths; the SINEX-TMS block markers are balanced for any "
+        "number of rows (blocks_balanced on the regenerated block table); float('%.df' % x) is the correctly rounded decimal "
+        "(fix_readback).  The model is tied to the code on every run: layouts/tables regenerated, and files written by the real "
+        "writers are compared line by line with the model inside Coq and re-read by the real parsers."),
     "level_note": (
-        "Trusted: Coq kernel + vm_compute; the hand-written model of Python's format mini-language (validated per written line), of "
-        "np.genfromtxt fixed-width splitting / ChainParser slicing / str.split (validated per parsed line); the translator "
-        "harness/drivers/c17_layouts.py (fail-closed); the identifier lengths of the formats (station 4/9, DOMES 9, serial 20, ...) "
-        "written in the driver's ROWS table; which lines a writer emits for an input (row selection, sorting) is re-implemented in the "
-        "driver and validated by comparing complete files.  float(text) is taken as correctly rounded (checked per value)."),
+        "NOT proved: the generic soundness of `compatible` (layout_compatible_sound: compatible => every fitting record parses back) - "
+        "it is checked per written line inside Coq instead (verdict 4).  Trusted: Coq kernel + vm_compute; the hand-written model of "
+        "Python's format mini-language (validated per written line), of np.genfromtxt fixed-width splitting / ChainParser slicing / "
+        "str.split (validated per parsed line); the translator harness/drivers/c17_layouts.py (fail-closed); the identifier lengths "
+        "of the formats written in the driver's ROWS table; which lines a writer emits for an input (row selection, sorting) is "
+        "re-implemented in the driver and validated by comparing complete files.  csv_, gamit_*, gipsyx_site_info are not covered."),
 }
 
-THEOREMS_FULL = [
-    "layout_compatible_sound", "layout_compatible_values", "span_sound",
+THEOREMS = [
     "compatible_bernese_crd", "compatible_bernese_clu", "compatible_bernese_sta_v52", "bernese_sta_v54_incompatible",
     "compatible_tms_header", "compatible_tms_file_reference", "compatible_tms_ref_coordinate", "compatible_tms_columns",
-    "tokens_pieces", "token_row_sound", "tms_tokens", "tms_rows_start_blank",
-    "fits_characterisation", "narrower_characterisation", "tms_types_need_gap",
-    "blocks_balanced", "tms_blocks_wf", "fix_readback",
+    "tms_blocks_wf", "blocks_balanced", "tms_rows_start_blank", "tms_types_shape",
+    "sta_fields_in_ruler", "tokens_pieces", "tms_tokens", "token_row_sound", "tms_domain_fits", "crd_domain_fits",
+    "fits_characterisation", "narrower_characterisation", "fix_readback",
 ]
 
 REQ = "From Verif Require Import Lib.Dyadic Model.C17_Layout Gen.C17_WriterLayouts."
@@ -75,7 +76,7 @@ ROWS = OrderedDict([
     ("sta1", (W + "bernese_sta.py", "bernese_sta", 0, [_ST, _DO, _D19, _D19, H("old_station", "s", 4), H("remark", "s")])),
     ("sta2", (W + "bernese_sta.py", "bernese_sta", 1, [
         _ST, _DO, _D19, _D19, H("rcv", "s", 20), H("rcv_serial", "s", 20), H("rcv_short", "s", 6), H("ant", "s", 15),
-        H("radome", "s", 4), H("ant_serial", "s", 20), H("ant_short", "s", 6), H("north", "f"), H("east", "f"), H("up", "f"),
+        H("radome", "s", 4), H("ant_serial", "s", 20), H("ant_short", "s", 6), H("north", "f", 8), H("east", "f", 8), H("up", "f", 8),
         H("description", "s", 22), H("remark", "s")])),
     ("sta3", (W + "bernese_sta.py", "bernese_sta", 2, [_ST, _DO, _D19, H("date_to", "s", 19), H("remark", "s")])),
     ("tms_header", (W + "sinex_tms.py", "header_line", 0, [
@@ -143,6 +144,11 @@ def extract():
                     and last.value.args and isinstance(last.value.args[0], tl.ast.Constant)):
                 end = str(last.value.args[0].value)
         t.tms_blocks[m] = (beg.rstrip("\n"), end.rstrip("\n"))
+    # ---- column rulers the Bernese STA writer itself writes under the section headers
+    _, sta_consts, _ = tl.writer_templates(W + "bernese_sta.py", "bernese_sta")
+    t.rulers = [c.rstrip("\n") for c in sta_consts if c.startswith("****************      ***  YYYY MM DD HH MM SS")]
+    if len(t.rulers) < 3:
+        raise TranslateError("bernese_sta: the column rulers of sections 001-003 were not found")
     # ---- parsers
     t.crd = tl.genfromtxt_params(P + "bernese_crd.py")
     t.clu = tl.genfromtxt_params(P + "bernese_clu.py")
@@ -168,8 +174,8 @@ def conv_of_dtype(dt):
         dt, cvt = dt
         if cvt == "yyyydddsssss":
             return "CStr"
-        if cvt == "utf8":
-            return "CStr"
+        if cvt == "utf8" and isinstance(dt, str) and dt.startswith("U") and dt[1:].isdigit():
+            return f"(CU {emit.nat(int(dt[1:]))})"
     if dt == "f8":
         return "CFloat"
     if isinstance(dt, str) and dt.startswith("U") and dt[1:].isdigit():
@@ -203,6 +209,9 @@ def gen_text(t):
     o.append("(* begin / end marker lines written by the block methods of TimeseriesBlocks *)")
     o.append("Definition tms_blocks : list (string * block) :=\n  [" + ";\n   ".join(
         f"({emit.s(m)}, mkblock {emit.s(b)} {emit.s(e)})" for m, (b, e) in t.tms_blocks.items()) + "].\n")
+    for i, r in enumerate(t.rulers[:3]):
+        o.append(f"Definition ruler_sta{i + 1} : string := {emit.s(r)}.")
+    o.append("")
     # parsers
     o.append(f"(* {P}bernese_crd.py genfromtxt delimiter {tuple(t.crd['delimiter'])} names {tuple(t.crd['names'])} *)")
     o.append("Definition P_crd : list pspan := " + tl.coq_spans(widths_spans(t.crd["delimiter"])) + ".")
@@ -508,6 +517,8 @@ class Acc:
         self.meta = {k: [] for k in self.cases}
         self.files = []        # per written file: dict(kind, rep, parser_error, row_refs=[(fn, idx)])
         self.direct = []       # (what, replay) violations decided without Coq (structure, purity)
+        self.known = []        # (finding id, what, replay) classes decided without Coq
+        self.ruled = []        # (ruler line, data line, replay): Bernese rows with the column ruler written above them
 
     def add(self, fn, term, rep, frec=None):
         self.cases[fn].append(term)
@@ -612,7 +623,12 @@ class _SiteFiles:
             elif rows:
                 frec["parser_error"] = f"parser returned {n} rows for {len(rows)} written rows"
         except Exception as e:
-            frec["parser_error"] = f"{type(e).__name__}: {e}"
+            if opts["epoch"] is None and isinstance(e, IndexError):
+                acc.known.append(("c17_crd_unknown_epoch", "bernese_crd writer with its default epoch=None writes 'EPOCH: UNKNOWN'; the bernese_crd parser "
+                                  "raises IndexError on that header line", dict(frec["rep"], header=lines[:4], error=str(e))))
+                frec["parser_error"] = None
+            else:
+                frec["parser_error"] = f"{type(e).__name__}: {e}"
         for i, (rid, vals, info) in enumerate(rows):
             line = lines[6 + i]
             rep = _row_rep(frec, rid, info, line)
@@ -688,6 +704,8 @@ class _SiteFiles:
             except ValueError:
                 return None
             j = i + 5        # title, dashes, blank, column names, ruler
+            if j < len(lines) and lines[j] != "":
+                acc.ruled.append((lines[j - 1], lines[j], dict(frec["rep"], section=title, ruler=lines[j - 1], written_line=lines[j])))
             rows = []
             while j < len(lines) and lines[j] != "":
                 rows.append(lines[j])
@@ -735,7 +753,8 @@ class _SiteFiles:
         tail_at = sum((it[1] if it[0] == "fld" else len(it[1])) for it in t.lay["sta3"])
         for i, (rid, vals, info) in enumerate(s3):
             line = got[2][i]
-            vals = vals[:-1] + [v_s(line[tail_at:])]       # the free-text remark is taken from the file (not modelled)
+            shift = max(0, len(info["station"]) - 4)
+            vals = vals[:-1] + [v_s(line[tail_at + shift:])]       # the free-text remark is taken from the file (not modelled)
             acc.add("check_line_t", emit.pair("L_sta3", emit.lst(vals), emit.s(line)), _row_rep(frec, rid, info, line), frec)
             ctx.case(("sta3", line), nontrivial=False)
 
@@ -762,23 +781,23 @@ def tms_value(rng, cls, edge):
         return float("nan")
     if cls == "sigma":
         if edge == "sigma_big" and rng.random() < 0.3:
-            return rng.choice([100000.0, 123456.7, 99999.99996])
-        return rng.choice([round(rng.uniform(0, 0.05), 4), rng.uniform(0, 1), 0.0008, 99999.9999, 0.00005, 1 / 32])
+            return rng.choice([100000.0, 123456.7, 99999.99996, 99999.9999, 10000.0])
+        return rng.choice([round(rng.uniform(0, 0.05), 4), rng.uniform(0, 1), 0.0008, 9999.9999, 0.00005, 1 / 32])
     if cls == "corr":
         return rng.choice([round(rng.uniform(-1, 1), 4), -1.0, 1.0, 0.0, -0.00004])
     if cls == "count":
         if edge == "count_big" and rng.random() < 0.3:
             return float(rng.choice([1000000, 12345678]))
-        return float(rng.choice([0, 1, 2880, 99999, 999999, rng.randrange(0, 100000)]) + rng.choice([0, 0, 0.5, 0.25]))
+        return float(rng.choice([0, 1, 2880, 99999, 999998, rng.randrange(0, 100000)]) + rng.choice([0, 0, 0.5, 0.25]))
     if cls == "clock":
-        return rng.choice([1, -1]) * rng.uniform(0, 1) * 10 ** rng.randrange(0, 9)
+        return rng.choice([1, -1]) * rng.uniform(0, 1) * 10 ** rng.randrange(0, 8)
     return gen_small(rng, 9.9999)
 
 
 def gen_enu(rng, edge):
     if edge == "enu_big" and rng.random() < 0.3:
         return rng.choice([1000000.0, 1234567.8912, -100000.0, -123456.789, 999999.99996, -99999.99996])
-    return rng.choice([gen_small(rng, 0.9999), gen_small(rng), round(rng.uniform(-99999, 999999), 4)])
+    return rng.choice([gen_small(rng, 0.9999), gen_small(rng), round(rng.uniform(-9999, 99999), 4), 999999.9999, -99999.9999])
 
 
 def gen_tms_dataset(rng, ctx, edge):
@@ -854,7 +873,12 @@ def run_tms(ctx, t, acc, n_sets):
                 warnings.simplefilter("ignore")
                 writers.write("sinex_tms", dset=dset, station=station, file_path=out, **o)
         except Exception as e:
-            acc.direct.append((f"writer sinex_tms raised {type(e).__name__}: {e}", rep0))
+            n_sta = sum(1 for r in rows if r[0] == station)
+            if n_sta == 1 and "obs.dsite_pos" in dset.fields and isinstance(e, ValueError) and "requires 3 columns" in str(e):
+                acc.known.append(("c17_tms_single_epoch", "sinex_tms writer raises ValueError for a station with exactly one epoch when ENU columns are present "
+                                  "(TimeseriesBlocks._get_ref_pos builds a Position from one row)", dict(rep0, error=str(e))))
+            else:
+                acc.direct.append((f"writer sinex_tms raised {type(e).__name__}: {e}", rep0))
             continue
         if dset_digest(dset) != before or digest(o) != obefore:
             acc.direct.append(("writer sinex_tms changed the dataset / options it was given", rep0))
@@ -918,7 +942,8 @@ def run_tms(ctx, t, acc, n_sets):
 
         # header line (the creation time is the clock: taken from the file)
         hdr = lines[0] if lines else ""
-        now = hdr[15:29]
+        a0 = 11 + max(3, len(o["file_agency"])) + 1
+        now = hdr[a0:a0 + 14]
         m = q.meta if q is not None else {}
 
         def iso2snx(x):
@@ -1030,14 +1055,21 @@ def run(ctx):
         return ctx.finish(level="proof", rule="translation failed")
     ok = ctx.prove(THEOREMS)
     acc = Acc()
-    n_site = 10 if ctx.quick() else 120
-    n_tms = 45 if ctx.quick() else 500
+    n_site = 10 if ctx.quick() else 60
+    n_tms = 45 if ctx.quick() else 300
     run_site_writers(ctx, t, acc, n_site)
+    ctx.log(f"site-information writers done: {sum(len(v) for v in acc.cases.values())} lines")
     run_tms(ctx, t, acc, n_tms)
+    ctx.log(f"sinex_tms done: {sum(len(v) for v in acc.cases.values())} lines, {len(acc.files)} files")
 
     verdicts = {}
     for fn, cases in acc.cases.items():
-        vs = ctx.coq_cases(emit.shard_terms(fn, cases, 120), REQ)
+        shards = emit.shard_terms(fn, cases, 200)
+        vs = ctx.coq_cases(shards, REQ, timeout=240)
+        for i, v in enumerate(vs):          # a shard lost to the machine (not to Coq) is evaluated once more, alone
+            if v is None:
+                vs[i] = ctx.coq_cases([shards[i]], REQ, timeout=600)[0]
+        ctx.log(f"{fn}: {len(cases)} cases evaluated in Coq")
         flat = emit.flatten_verdicts(vs, len(cases))
         if flat is None:
             ctx.violation({"broken": f"correspondence shards of {fn} did not evaluate in Coq", "errors": ctx.last_coq_errors[:2]},
@@ -1053,6 +1085,8 @@ def run(ctx):
                 ctx.violation(rep, what="block markers of the written SINEX-TMS file are not balanced")
             elif v == 1:
                 ctx.violation(rep, what=f"written line differs from the model's rendering of the same input ({rep.get('row_type')})")
+            elif v == 2 and rep.get("edge") is None:
+                ctx.violation(rep, what=f"a value inside the format's domain does not fit its column ({rep.get('row_type')})")
             elif v == 2:
                 fid, what = OVERFLOW["sinex_tms" if rep.get("writer") == "sinex_tms" else "bernese"]
                 ctx.count(f"overflow:{rep.get('writer')}:{rep.get('row_type')}:{rep.get('edge')}")
@@ -1072,9 +1106,21 @@ def run(ctx):
                       what=f"the matching parser fails on a conformant file written by {frec['kind']}: {frec['parser_error']}")
     for what, rep in acc.direct:
         ctx.violation(rep, what=what)
+    for fid, what, rep in acc.known:
+        ctx.count(f"finding:{fid}")
+        ctx.finding(fid, what, rep)
 
     if not ok and not ctx.violations:
-        ctx.obligations_broken(lambda: None)
+        def search():
+            # property oracle on observables (column scan): a data character under a gap (two blanks) of the ruler line
+            for ruler, line, rep in acc.ruled:
+                n = len(ruler.rstrip())
+                for p_ in range(1, min(n, len(line)) - 1):
+                    if line[p_] != " " and ruler[p_] == " " and (ruler[p_ - 1] == " " or ruler[p_ + 1] == " "):
+                        return dict(rep, what=f"column {p_} of the written row holds {line[p_]!r} but lies between two columns of the format's ruler",
+                                    column=p_)
+            return None
+        ctx.obligations_broken(search)
     ctx.trusted += [
         "Coq 8.16.1 kernel, coqc, vm_compute (no native_compute)",
         "hand-written model coq/theories/Model/C17_Layout.v of Python's format mini-language, genfromtxt fixed-width / ChainParser slices / str.split (validated per line by this run)",
@@ -1102,4 +1148,3 @@ def replay(ctx, path):
     print("re-run: VERIF_SEED=%s /venv/bin/python run_check.py C17 %s" % (rep.get("seed"), rep.get("tier", "quick")))
     return 0
 
-THEOREMS = ["compatible_bernese_crd"]
